@@ -433,3 +433,36 @@ def check(P: Project, R: Report) -> None:
                  sample=f"R5 {m.name}.{fi.name}: {got}")
     R.need(n_con >= 4, f"only {n_con} constrained fields found (4 confirmed by hand)")
 
+
+    # ------------------------------------------------------------------ R6: a declared default belongs to one object
+    R.rule("R6", "an added member is the declared default, for every object: the no-Pydantic backend hands `field.default` to each new instance as it is (no copy), so no protocol model declares a mutable value — a constructed object, a list/dict/set display — as a plain default; mutable defaults go through default_factory (Pydantic copies plain defaults per instance, the fallback shares them: a change made through one object shows up as the 'default' of every later one)")
+    fb_base = P.module(A.MOD_BASE)
+    builder = next((f for f in P.funcs_in(A.MOD_BASE) if f.name == "_build_field_values"), None)
+    copies = None
+    if builder is not None:
+        for s_ in walk_local(builder.node):
+            if isinstance(s_, ast.Assign) and any(isinstance(x, ast.Attribute) and x.attr == "default" for x in ast.walk(s_.value)) and not isinstance(s_.value, ast.Compare):
+                v_ = s_.value
+                copies = isinstance(v_, ast.Call) and call_name(v_).split(".")[-1] in ("deepcopy", "copy")
+    R.need(copies is not None, "anchor: where the fallback constructor takes a field's plain default was not found")
+    IMMUTABLE_CALLS = {"frozenset", "tuple", "str", "int", "float", "bool", "bytes", "Field"}
+    n_def = 0
+    n_mut = 0
+    for q, m in sorted(T.models.items()):
+        if not m.ci.module.name.startswith("chuk_mcp.protocol."):
+            continue
+        for fi in m.own_fields.values():
+            d = fi.default
+            if isinstance(d, ast.Call) and ast.unparse(d.func).split(".")[-1] == "Field":
+                d = next((k.value for k in d.keywords if k.arg == "default"), d.args[0] if d.args else None)
+            if d is None:
+                continue
+            n_def += 1
+            mutable = isinstance(d, (ast.List, ast.Dict, ast.Set, ast.ListComp, ast.DictComp, ast.SetComp)) or (isinstance(d, ast.Call) and ast.unparse(d.func).split(".")[-1] not in IMMUTABLE_CALLS)
+            if mutable:
+                n_mut += 1
+                R.ob("R6", f"{m.name}.{fi.name}: the declared default is not one object shared by all instances", bool(copies), f"{m.ci.module.rel}:{fi.lineno}",
+                     f"default `{ast.unparse(d)[:60]}` is evaluated once, at class creation; {builder.qual if builder else 'the fallback constructor'} assigns that very object to every instance that omits the member — after `obj.{fi.name}.<member> = …` on any one of them, every later object built from a wire object without `{fi.name}` serialises the changed value as its default")
+    R.ob("R6", "plain defaults of protocol models are immutable values (or the fallback copies them)", n_mut == 0 or bool(copies), fb_base.rel + f":{builder.node.lineno if builder else 1}", f"{n_def} plain defaults, {n_mut} mutable, fallback copies: {bool(copies)}",
+         sample=f"R6 {n_def} plain defaults, {n_mut} mutable")
+    R.need(n_def >= 30, f"only {n_def} plain field defaults seen")
